@@ -1221,11 +1221,16 @@ bool Annotator::AnnotatorImpl::itemsEqual(const AnyCellmlElementPtr &itemWeak, c
                             std::any_cast<ComponentWeakPtr>(item->mPimpl->mItem));
         break;
     case CellmlElementType::CONNECTION:
-    case CellmlElementType::MAP_VARIABLES:
-        // Connections and map variables are not stored as a weak pointer so we can compare
-        // shared pointers directly.
-        itemsEqual = itemWeak->variablePair() == item->variablePair();
-        break;
+    case CellmlElementType::MAP_VARIABLES: {
+        // Connections and map variables are not stored as a weak pointer. Two pairs are the same
+        // item when they hold the same two variables, in either order.
+        auto pairWeak = itemWeak->variablePair();
+        auto pair = item->variablePair();
+        itemsEqual = (pairWeak == pair)
+                     || ((pairWeak != nullptr) && (pair != nullptr)
+                         && (((pairWeak->variable1() == pair->variable1()) && (pairWeak->variable2() == pair->variable2()))
+                             || ((pairWeak->variable1() == pair->variable2()) && (pairWeak->variable2() == pair->variable1()))));
+    } break;
     case CellmlElementType::ENCAPSULATION:
     case CellmlElementType::MODEL:
         itemsEqual = equals(std::any_cast<ModelWeakPtr>(itemWeak->mPimpl->mItem),
@@ -1241,10 +1246,15 @@ bool Annotator::AnnotatorImpl::itemsEqual(const AnyCellmlElementPtr &itemWeak, c
         itemsEqual = equals(std::any_cast<ResetWeakPtr>(itemWeak->mPimpl->mItem),
                             std::any_cast<ResetWeakPtr>(item->mPimpl->mItem));
         break;
-    case CellmlElementType::UNIT:
-        // Unit is not actually stored as a weak pointer so we can compare shared pointers directly.
-        itemsEqual = itemWeak->unitsItem() == itemShared->unitsItem();
-        break;
+    case CellmlElementType::UNIT: {
+        // Unit is not actually stored as a weak pointer. Two unit items are the same item when they
+        // refer to the same units and the same index.
+        auto unitsItemWeak = itemWeak->unitsItem();
+        auto unitsItem = itemShared->unitsItem();
+        itemsEqual = (unitsItemWeak == unitsItem)
+                     || ((unitsItemWeak != nullptr) && (unitsItem != nullptr)
+                         && (unitsItemWeak->units() == unitsItem->units()) && (unitsItemWeak->index() == unitsItem->index()));
+    } break;
     case CellmlElementType::UNITS:
         itemsEqual = equals(std::any_cast<UnitsWeakPtr>(itemWeak->mPimpl->mItem),
                             std::any_cast<UnitsWeakPtr>(item->mPimpl->mItem));
